@@ -238,9 +238,16 @@ fn one_case(r: &mut Rng, id: usize, out: &mut String) {
         }
         "compose" => {
             let k = gen_dim(r, 0);
-            let f = gen_aff(r, m, n, 8);
+            let mut f = gen_aff(r, m, n, 8);
             let gm = if mal { other_dim(r, n) } else { n };
-            let g = gen_aff(r, gm, k, 8);
+            let mut g = gen_aff(r, gm, k, 8);
+            if r.chance(1, 5) {
+                // very different magnitudes, every product exact (see common::gen_aff_selection)
+                g = gen_aff_selection(r, gm, k);
+                widen(r, &mut f);
+                // apply() on such a map rounds in f64: the coefficients are compared, not sample values
+                with_pts = false;
+            }
             args.push(sx_aff(&f));
             args.push(sx_aff(&g));
             let (s, a) = rf("ref", || f.compose(&g));
